@@ -94,6 +94,9 @@ def run(ctx):
             "startup once / const / line / step / instance_step / composite) decoded by the real config decoder into engine.Config and run by the real engine against a target that answers "
             "after a delay and keeps the paths it received; lines of the results file vs requests received; code-shaped side = Model/ShootEngine.v (slow-target trace, out-of-ammo branch, check and contexts as translate awaitrun re-reads them"
             ")",
+            "round 8: http/json lines are drawn member by member (tokens J:<member>,...: tag written / twice / empty / absent / null / near-miss key; headers object / {} / null / absent; unknown members; "
+            "key spellings; shuffled) for the line-by-line and the array form (jsona) of the file; the JSON text is rendered by the harness and parsed by encoding/json (oracle), the code-shaped side decodes the "
+            "members into the target translate jsontarget re-reads from jsonline.go Scan (Gen/JsonLineTargetGen.v), the verdict is ammo_spec over entries carrying line_tag of their own line",
             "modelled, not verified: which Go error values the network stack produces for a fault (the harness records the shape of the error value the gun got "
             "and the model's get_errno is applied to it); the errno Linux yields per fault (refused 111, stall 110, reset 104, short body / refused CONNECT 999) is a table in the OCaml driver; "
             "errors.Cause/Underlying unwrapping is modelled by the EWrap constructor",
